@@ -68,6 +68,7 @@ def run_worker_subprocess(pid, cfg, tier, tmpdir, timeout_s):
     env["PYTHONPATH"] = ROOT + os.pathsep + env.get("PYTHONPATH", "")
     env["OMP_NUM_THREADS"] = "1"
     env["PYTHONWARNINGS"] = "ignore::DeprecationWarning"
+    env["VERIF_PARTIAL_OUT"] = out + ".partial"
     t0 = time.time()
     try:
         p = subprocess.run(cmd, cwd=ROOT, env=env, capture_output=True, text=True, timeout=timeout_s)
@@ -78,8 +79,14 @@ def run_worker_subprocess(pid, cfg, tier, tmpdir, timeout_s):
             res = {"config": cfg["id"], "paths": [], "violations": [], "inconclusive": [],
                    "harness_errors": ["worker produced no result (rc=%s): %s" % (p.returncode, (p.stderr or "")[-2000:])]}
     except subprocess.TimeoutExpired:
-        res = {"config": cfg["id"], "paths": [], "violations": [], "harness_errors": [],
-               "inconclusive": [{"path": "*", "why": "config exceeded its wall-time limit of %ds" % timeout_s}]}
+        res = {"config": cfg["id"], "paths": [], "violations": [], "harness_errors": [], "inconclusive": []}
+        if os.path.exists(out + ".partial"):
+            try:
+                with open(out + ".partial") as f:
+                    res = json.load(f)
+            except Exception:
+                pass
+        res.setdefault("inconclusive", []).append({"path": "*", "why": "config exceeded its wall-time limit of %ds" % timeout_s})
     res.setdefault("wall_s", round(time.time() - t0, 2))
     return res
 
